@@ -268,6 +268,12 @@ NORMALISING = {
 
 
 def run(c, prog):
+    _run(c, prog)
+    from . import C01_queue
+    C01_queue.run(c, prog)
+
+
+def _run(c, prog):
     R = "C01.arm"
     c.rule(R, "for each of the 31 wire types: the encoder arm's wire grammar (primitives, loop domains, branch structure, length prefixes) is what each decoder arm consumes, and the value the decoder hands to add_property is the identity on the value encoded — every leaf field exactly once in its own position — modulo the documented normalisations")
     efn, em, earms = common.binary_encoder_arms(prog)
